@@ -35,18 +35,30 @@ const (
 )
 
 type c26world struct {
-	lists      [][]int // node indices per replication rule
-	copies     []uint
-	inNetmap   bool
-	answer     [c26N]int
-	netmapMnt  [c26N]bool // maintenance flag in the network map
-	confirmed  [c26N]bool // header read OK or replication reported success
-	headCalls  [c26N]int
-	typ        object.Type
-	deleted    bool
+	lists     [][]int // node indices per replication rule
+	copies    []uint
+	inNetmap  bool
+	answer    [c26N]int
+	netmapMnt [c26N]bool // maintenance flag in the network map
+	confirmed [c26N]bool // header read OK or replication reported success
+	headCalls [c26N]int
+	typ       object.Type
+	deleted   bool
 }
 
 var c26 c26world
+
+// c26me is the node whose policer runs (the cluster simulation of C27 lets every
+// node take the turn); c26sim, when on, derives the nodes' answers from a shared
+// cluster state in which replication to a reachable node succeeds.
+var (
+	c26me  = c26Local
+	c26sim struct {
+		on    bool
+		holds [c26N]bool
+		tasks int
+	}
+)
 
 func c26node(i int) netmap.NodeInfo {
 	var n netmap.NodeInfo
@@ -71,13 +83,20 @@ func (c26net) GetNodesForObject(oid.Address) ([][]netmap.NodeInfo, []uint, []iec
 	}
 	return nn, c26.copies, nil, nil
 }
-func (c26net) IsLocalNodePublicKey(k []byte) bool { return len(k) == 1 && k[0] == 0xA0+c26Local }
+func (c26net) IsLocalNodePublicKey(k []byte) bool { return len(k) == 1 && k[0] == 0xA0+byte(c26me) }
 
 type c26conns struct{}
 
 func (c26conns) headObject(_ context.Context, n netmap.NodeInfo, _ oid.Address, _ bool, _ []string) (object.Object, error) {
 	i := c26index(n)
 	c26.headCalls[i]++
+	if c26sim.on {
+		if c26sim.holds[i] {
+			c26.confirmed[i] = true
+			return object.Object{}, nil
+		}
+		return object.Object{}, apistatus.ErrObjectNotFound
+	}
 	switch c26.answer[i] {
 	case c26Has:
 		c26.confirmed[i] = true
@@ -97,6 +116,19 @@ type c26repl struct{}
 
 func (c26repl) HandleTask(_ context.Context, t replicator.Task, res replicator.TaskResult) {
 	left := t.VerifQuantity()
+	if c26sim.on {
+		c26sim.tasks++
+		for _, n := range t.Nodes() {
+			if left == 0 {
+				break
+			}
+			c26sim.holds[c26index(n)] = true
+			c26.confirmed[c26index(n)] = true
+			res.SubmitSuccessfulReplication(n)
+			left--
+		}
+		return
+	}
 	for _, n := range t.Nodes() {
 		if left == 0 {
 			break
@@ -119,7 +151,7 @@ func c26checkRemoval() {
 		hasLocal := false
 		n := uint(0)
 		for _, j := range l {
-			if j == c26Local {
+			if j == c26me {
 				hasLocal = true
 			} else if c26.confirmed[j] {
 				n++
@@ -152,6 +184,9 @@ func c26checkRemoval() {
 
 func (c26store) Delete(context.Context, oid.Address, engine.GarbageMark) error {
 	c26checkRemoval()
+	if c26sim.on {
+		c26sim.holds[c26me] = false
+	}
 	return nil
 }
 func (c26store) DeleteRedundantCopies(context.Context, oid.Address, []string) error {
